@@ -123,6 +123,7 @@ CONFIGS_QUICK: List[Dict[str, str]] = [
     {"S": 'x\\y"z', "H": "0x2a"},
     {"NEWP": "y", "NEWI": "n"},
     {"N": "5"},  # user value equal to the default: only the `# default:` marker of sdkconfig changes
+    {"S": "caf\u00e9 \u4e2d"},  # multi-byte UTF-8 in every output (bytes on disk != characters)
 ]
 CONFIGS_THOROUGH = CONFIGS_QUICK + [
     {"U": "6", "B": "n"},  # hidden user value
